@@ -409,9 +409,21 @@ class ExecMixin(object):
                     names.append(n.name)
         return names
 
-    def loop_spec(self, ctx):
-        k = ctx.loop_ordinal
-        ctx.loop_ordinal += 1
+    def loop_spec(self, ctx, node=None):
+        """loops are keyed by their ordinal in source order within the function (stable across execution paths)"""
+        ids = getattr(ctx, 'loop_ids', None)
+        if ids is None:
+            ids = {}
+            if ctx.finfo is not None:
+                loops = [n for n in ast.walk(ctx.finfo.node) if isinstance(n, (ast.For, ast.While))]
+                loops.sort(key=lambda n: (n.lineno, n.col_offset))
+                ids = {id(n): i for i, n in enumerate(loops)}
+            ctx.loop_ids = ids
+        if node is not None and id(node) in ids:
+            k = ids[id(node)]
+        else:
+            k = ctx.loop_ordinal
+            ctx.loop_ordinal += 1
         spec = ctx.contract.loops.get(k) if ctx.contract else None
         return k, spec
 
@@ -648,7 +660,7 @@ class ExecMixin(object):
                     yield s_out, None
 
     def ex_While(self, s, st, ctx):
-        k, spec = self.loop_spec(ctx)
+        k, spec = self.loop_spec(ctx, s)
 
         def guard(state):
             return [(s1, self.truth(s1, c)) for s1, c in self.ev(s.test, state, ctx)]
@@ -657,7 +669,7 @@ class ExecMixin(object):
             yield r
 
     def ex_For(self, s, st, ctx):
-        k, spec = self.loop_spec(ctx)
+        k, spec = self.loop_spec(ctx, s)
         it = s.iter
         iv = '_i%d' % k
         # --- range(...) --------------------------------------------------------------
